@@ -14,7 +14,7 @@ META = dict(
         "exact real arithmetic: (x+eps)-eps = x, finite differences exact",
         "'correct derivative of a well-scaled smooth f' is taken to mean |d - fd| <= deriv_tol for the forward difference fd the checker forms (Taylor bound eps*|f''|/2 + 2u|f|/eps, not re-proved); 'the checker's tolerance' is numpy.allclose's atol + 1e-5*|fd|",
     ],
-    bounds=dict(quick="m,n <= 2; dense gradient (m=1) and sparse COO/CSR/CSC Jacobian incl. missing entries; Solver._deriv_check with n=m=1; one K=2 solve with the check enabled", thorough="m,n <= 3"),
+    bounds=dict(quick="m,n <= 2; dense gradient (m=1) and sparse COO/CSR/CSC Jacobian incl. missing entries; Solver._deriv_check with n=m=1, unscaled and under two custom power-of-two scalings (reference-scaled functions as oracle); one K=2 solve with the check enabled", thorough="m,n <= 3"),
     outside=["floating-point cancellation in the finite difference", "dense derivative arrays with m > 1 rows (not produced by Solver._deriv_check)"],
     explanation="Every path of the real checker over arbitrary function values: pass => all entries within the checker's tolerance; all entries within deriv_tol => pass; a raised DerivError names exactly the violating rows of the first violating column; Solver._deriv_check differences f against grad f, c against J, and grad f + J^T y (y fixed) against the Hessian at (x,y); a solve with the check enabled starts from the unchanged point.",
 )
@@ -30,7 +30,11 @@ def tasks(tier):
     ]
     for w in ("CheckAll", "CheckFirst", "CheckSecond", "NoCheck"):
         t.append(dict(module="dcheck", fn="h_solver", shape=dict(which=w), opts=dict(nra=True)))
+    # the check runs on the problem the solver actually differences: under a custom scaling, the reference-scaled functions (C04)
+    for w, sc in (("CheckAll", dict(vw=2, cw=-1, ow=3)), ("CheckSecond", dict(vw=-1, cw=2, ow=-2))):
+        t.append(dict(module="dcheck", fn="h_solver", shape=dict(which=w, scaling=sc), opts=dict(nra=True)))
     if tier != "quick":
+        t.append(dict(module="dcheck", fn="h_solver", shape=dict(which="CheckAll", scaling=dict(vw=-3, cw=1, ow=1), fmt="csr"), opts=dict(nra=True)))
         t.append(dict(module="dcheck", fn="h_deriv", shape=dict(m=3, n=2, fmt="csr")))
         t.append(dict(module="dcheck", fn="h_deriv", shape=dict(m=2, n=3, fmt="csc")))
         t.append(dict(module="dcheck", fn="h_deriv", shape=dict(m=1, n=3, fmt="dense", scalar=True)))
